@@ -847,7 +847,13 @@ fn main() {
   let sub = sub.to_string();
   // big stack: deeply nested inputs recurse deeply in swc's visitors
   let child = std::thread::Builder::new()
-    .stack_size(256 << 20)
+    .stack_size(
+      std::env::var("VH_STACK_MB")
+        .ok()
+        .and_then(|v| v.parse::<usize>().ok())
+        .unwrap_or(256)
+        << 20,
+    )
     .spawn(move || {
       let stdin = std::io::stdin();
       let stdout = std::io::stdout();
